@@ -149,10 +149,9 @@ func (l *leaderStub) serve(w http.ResponseWriter, req *http.Request) {
 	}
 }
 
-func heartbeatPhase(r *vkit.R) {
+func heartbeatPhase(r *vkit.R, base *vkit.Rand) {
 	n := r.N(4, 24)
 	var wg sync.WaitGroup
-	base := r.Rng.Fork("heartbeat")
 	for i := 0; i < n; i++ {
 		g := base.Sub(i)
 		dead := i % 2 // which shard's leader goes down: both directions in every run
